@@ -122,6 +122,9 @@ fn props_json(m: impl Iterator<Item = (String, PropertyValue)>) -> Value {
     let mut o = Map::new();
     let b: BTreeMap<String, PropertyValue> = m.collect();
     for (k, v) in b {
+        if v.is_null() {
+            continue; // a property holding null is an absent property
+        }
         o.insert(k, json!(pv_to_tok(&v)));
     }
     Value::Object(o)
